@@ -29,6 +29,8 @@ def single_specs():
         {"type": "Variable", "allowed_durations": [1, 3], "max_duration": 3},
         {"type": "Variable", "min_duration": 2},
         {"type": "Variable"},
+        # listed durations below the minimum and above the maximum: every restriction applies at once
+        {"type": "Variable", "min_duration": 2, "max_duration": 3, "allowed_durations": [1, 2, 4]},
     ]
     for ty, opt, H in itertools.product(types, (False, True), (4, 7)):
         d = ty.get("duration", ty.get("min_duration", 1) or 1)
@@ -53,6 +55,7 @@ def steer_specs():
         {"type": "Zero"},
         {"type": "Variable", "min_duration": 1, "max_duration": 3},
         {"type": "Variable", "allowed_durations": [2, 3]},
+        {"type": "Variable", "min_duration": 2, "max_duration": 3, "allowed_durations": [1, 3, 5]},
     ]
     for ty, opt, H in itertools.product(types, (False, True), (None, 6)):
         for q, direction in (("start", "min"), ("end", "max"), ("duration", "min"), ("duration", "max"),
